@@ -132,4 +132,4 @@ def shard(ctx):
         if r is not None:
             ctx.fail({k: c[k] for k in ('bytes', 'text', 'preserve', 'cli', 'codec', 'decl')}, r[0], r[1])
 
-    hyp_run(ctx, 'enc', cases(), prop, ctx.n(5000, 120000))
+    hyp_run(ctx, 'enc', cases(), prop, ctx.n(12000, 300000))
